@@ -54,6 +54,7 @@ type GenOpts struct {
 	NoIO      bool
 	Invalid   bool // sprinkle undefined opcodes (C10/C12 programs)
 	NoEI      bool // prologue leaves interrupts disabled
+	HaltAtTop bool // lay the code out so that the final HALT is at FFFF
 }
 
 type asm struct {
@@ -373,7 +374,7 @@ func genHandlerCode(r *mon.Rng, nmi bool) []uint8 {
 // 0000 so that execution crosses FFFF->0000 (only NMI and mode-2 interrupts
 // are usable then: the RST vectors are covered by code).
 func GenProgram(r *mon.Rng, o GenOpts) *Prog {
-	if !o.Wrap {
+	if !o.Wrap && !o.HaltAtTop {
 		return genProgramAt(r, o)
 	}
 	for {
@@ -390,6 +391,10 @@ func GenProgram(r *mon.Rng, o GenOpts) *Prog {
 			continue
 		}
 		o.Base = uint16(0x10000 - len(probe.Code)/2)
+		if o.HaltAtTop {
+			// the final HALT sits exactly at FFFF (subroutines wrap to 0000..)
+			o.Base = 0xffff - probe.HaltAddr
+		}
 		p := genProgramAt(mon.NewRng(seed), o)
 		// drop the chunks that the code covers
 		var keep []Chunk
@@ -442,7 +447,7 @@ func genProgramAt(r *mon.Rng, o GenOpts) *Prog {
 	hn := genHandlerCode(r, true)
 	hmAddr := uint16(genHandler)
 	hnAddr := uint16(genHandler + 0x40)
-	if o.Wrap {
+	if o.Wrap || o.HaltAtTop {
 		// keep clear of code laid around 0000
 		hmAddr, hnAddr = 0x0200, 0x0240
 	}
